@@ -1,2 +1,3 @@
 pub mod func;
 pub mod inst;
+pub mod mps_text;
